@@ -51,6 +51,8 @@ def scatterer(kind):
         return Sphere(n=1.59, r=0.5, center=c), (MieLens(lens_angle=0.8) if kind == "sphere_mielens" else None)
     if kind == "layered":
         return Sphere(n=[1.59, 1.42], r=[0.3, 0.5], center=c), None
+    if kind == "metal_coated_large":
+        return Sphere(n=[1.59, 0.14 + 3.7j], r=[15.0, 15.05], center=(0.7, 0.9, 40.0)), None
     if kind.startswith("spheres"):
         s = Spheres([Sphere(n=1.59, r=0.4, center=c), Sphere(n=1.5, r=0.3, center=(1.6, 1.1, 6.5))])
         return s, (Mie() if kind == "spheres_mie" else Multisphere())
@@ -212,7 +214,8 @@ def run(ctx):
             and g.states[s_]["req"]["mi"] != "none" and g.states[s_]["req"]["po"] != "none"]
     chosen += perm[:24] if quick else perm
     # likewise the rarer detector kinds and the lens wrapper: a batch of complete requests each
-    for fld, val in (("det", "points_spherical"), ("det", "pixel_subset"), ("det", "raised_plane"), ("scat", "sphere_lens")):
+    for fld, val in (("det", "points_spherical"), ("det", "pixel_subset"), ("det", "raised_plane"), ("scat", "sphere_lens"),
+                     ("scat", "metal_coated_large")):
         batch = [s_ for s_ in inits if g.states[s_]["req"][fld] == val and g.states[s_]["req"]["alpha"] != "zero"
                  and all(g.states[s_]["req"][k_] != "none" for k_ in ("wl", "mi", "po"))]
         chosen += batch[:10] if quick else batch[:150]
@@ -374,7 +377,9 @@ def run(ctx):
                 except Exception as e:
                     ctx.violation("request/compare_exception", {"req": rq, "exc": repr(e)[:300]})
                     continue
-                if d1 > 1e-12 or d2 > 1e-12:
+                if not (np.all(np.isfinite(np.asarray(E.values))) and np.all(np.isfinite(ai)) and np.all(np.isfinite(a))):
+                    bad = ("not_finite", {"field_finite": bool(np.all(np.isfinite(np.asarray(E.values))))})
+                elif not (d1 <= 1e-12 and d2 <= 1e-12):
                     bad = ("value", {"holo_defect": d1, "intensity_defect": d2})
                 elif any(not fp.same(r_.attrs.get(k_), h.attrs.get(k_)) for r_ in (E, inten)
                          for k_ in ("medium_index", "illum_wavelen", "illum_polarization", "experiment", "exposure_ms")) \
